@@ -53,7 +53,8 @@ pub fn strategy(minimiser: bool) -> BoxedStrategy<PySession> {
             Kind::Kmer { k } => *k,
             Kind::Min { w, .. } => *w,
         };
-        (Just(kind), gen::seq(scale, 200, false), proptest::collection::vec(step_strategy(), 1..=8))
+        // a quarter of the strings are long enough for several hundred items (block-wise buffering inside the binding)
+        (Just(kind), prop_oneof![3 => gen::seq(scale, 200, false), 1 => gen::seq(scale, 1200, false)], proptest::collection::vec(step_strategy(), 1..=8))
     })
     .prop_map(|(kind, seq, mut script)| {
         // every script ends by draining the object, so that "stops early" is always observable
@@ -156,6 +157,7 @@ pub fn check(c: &PySession) -> Verdict {
         }
     }
     v.class_if(after_partial, "python-session-continued-after-partial-use");
+    v.class_if(n > 256, "python-session->256-items");
     v.nontrivial = n >= 2 && partial && after_partial;
     v
 }
